@@ -87,9 +87,39 @@ def line_modes(line):
 
 # ---- running ----
 
+def run_capped(binary, sub, cases, timeout=1200, max_crashes=6):
+    """suite.run_tool, but a tool that keeps dying (e.g. a stack overflow of Unfold on every cyclic
+    environment) is not restarted more than max_crashes times: the remaining cases are NOT-RUN"""
+    import tempfile
+    os.makedirs(os.path.join(C.CACHE, "tmp"), exist_ok=True)
+    res, todo, crashes = {}, list(cases), 0
+    while todo:
+        fd, path = tempfile.mkstemp(dir=os.path.join(C.CACHE, "tmp"), suffix=".cases")
+        os.close(fd)
+        with open(path, "w") as f:
+            for i, _, t in todo:
+                f.write("%s\t%s\n" % (i, t.encode("latin1", "replace").hex()))
+        rc, out, err = C.run([binary, sub, path], timeout=timeout)
+        os.remove(path)
+        got = S._parse_lines(out)
+        res.update(got)
+        rest = [c for c in todo if c[0] not in got]
+        if (rc == 0 and len(got) >= len(todo)) or not rest:
+            break
+        crashes += 1
+        tail = (err or "")[-300:].replace("\n", " | ")
+        res[rest[0][0]] = "CRASH rc=%d %s" % (rc, "TIMEOUT" if rc == 124 else tail)
+        todo = rest[1:]
+        if crashes >= max_crashes:
+            for c in todo:
+                res[c[0]] = "NOT-RUN (tool crashed %d times before)" % crashes
+            break
+    return res
+
+
 def run_both(b, sub, cases, timeout=1200):
-    impl = S.run_tool(b.probe, sub, cases, timeout) if not b.probe_error else {}
-    model = S.run_tool(b.model, sub, cases, timeout) if not (b.model_error or b.probe_error) else {}
+    impl = run_capped(b.probe, sub, cases, timeout) if not b.probe_error else {}
+    model = run_capped(b.model, sub, cases, timeout) if not (b.model_error or b.probe_error) else {}
     return impl, model
 
 
@@ -208,6 +238,8 @@ def analyse(b, prop, sub, items, cases, impl, model, proj, spec_check, render_it
     for (i, k, e, anns), (_, _, t) in zip(items, cases):
         a, m = impl.get(i, "MISSING"), model.get(i, "MISSING")
         cnt["class:" + vclass(a)] += 1
+        if vclass(a) == "NOT-RUN":
+            continue
         if vclass(a) == "PARSE-ERR":
             cnt["parse-err"] += 1
         st, detail = spec_check(e, anns, a)
@@ -225,7 +257,7 @@ def analyse(b, prop, sub, items, cases, impl, model, proj, spec_check, render_it
         def still(cand, _anns=anns):
             txt = render_item(cand, _anns)
             return spec_check(cand, _anns, impl_obs(b, sub, txt))[0] == "violation"
-        small = shrink_env(e, still)
+        small = shrink_env(e, still, budget=80 if vclass(a) in ("OK", "REJECT") else 12)
         txt = render_item(small, anns)
         obs = impl_obs(b, sub, txt)
         violations.append(C.Violation(
